@@ -135,7 +135,11 @@ func Fixtures() []Fixture {
 					if r.Chance(0.05) {
 						sb.WriteString("\n")
 					}
-					fmt.Fprintf(&sb, "%s,%s,\"%s\"\n", strings.ReplaceAll(word(r), " ", "_"), numOrBad(r), word(r))
+					extra := ""
+					if r.Chance(0.12) { // rows wider than the declared columns are legal: extra fields are ignored
+						extra = r.PickStr(",", ",x", ",,", ",extra,more")
+					}
+					fmt.Fprintf(&sb, "%s,%s,\"%s\"%s\n", strings.ReplaceAll(word(r), " ", "_"), numOrBad(r), word(r), extra)
 				}
 				return []byte(sb.String())
 			}},
